@@ -39,13 +39,28 @@
 (*                    other's bytes -> par.pure / vlib.parallel_callers    *)
 (*                    (8 goroutines, race-detector build, results compared *)
 (*                    with the sequential reference)                       *)
+(* Objects come into it as well (seed round 16): a RECEIVER decodes into   *)
+(* storage it owns and the caller may keep what it decoded BY VALUE        *)
+(* (`saved := rx` copies the struct, its slices still point where they     *)
+(* pointed); a STATE (a hash in progress) may be forked by value copy and  *)
+(* both lineages continue.                                                 *)
+(*    DecodeInto(o, b) receiver o decodes buffer b into FRESH storage      *)
+(*    Keep(o)          the caller keeps o's current value by value         *)
+(*    NewState / Update / Fork   a state is created, updated in place by   *)
+(*                     its owner, forked into a second object              *)
+(*    ReuseReceiverStorage  DecodeInto recycles the receiver's storage     *)
+(*                    (`x.f = append(x.f[:0], ...)`)  -> long-lived        *)
+(*                    receivers whose results are kept by value            *)
+(*    ForkSharesBuffer     the state holds its block in a slice, a value   *)
+(*                    copy shares it -> forks of an MD4 value              *)
 (***************************************************************************)
 EXTENDS Naturals, FiniteSets, TLC
 
 CONSTANTS Vals,            \* abstract contents / values (Enc and Dec are the identity on them: only identity of storage matters)
           NBuf,            \* caller-owned buffers 1..NBuf; library-owned buffers are NBuf+1 .. NBuf+MaxAlloc
           MaxAlloc,        \* bound on library allocations
-          PooledOutput, AliasInput, CacheByAddress, KeepState, SharedScratch   \* deviations (all FALSE = the specification)
+          PooledOutput, AliasInput, CacheByAddress, KeepState, SharedScratch,   \* deviations (all FALSE = the specification)
+          ReuseReceiverStorage, ForkSharesBuffer
 
 VARIABLES heap,      \* buffer id -> content
           nalloc,    \* library allocations so far
@@ -53,8 +68,12 @@ VARIABLES heap,      \* buffer id -> content
           cache,     \* CacheByAddress: <<buffer id, value>> of the last Decode, or <<0, 0>>
           last,      \* KeepState: value of the previous Decode (or 0)
           pc,        \* goroutine -> the value it is encoding right now (None = not inside a call)
-          area       \* goroutine -> content of the assembly area it uses (SharedScratch: both use area[1])
-vars == <<heap, nalloc, results, cache, last, pc, area>>
+          area,      \* goroutine -> content of the assembly area it uses (SharedScratch: both use area[1])
+          stor,      \* object -> the library buffer its slice fields point to (0 = none yet)
+          want       \* state object -> the content its own lineage wrote last
+vars == <<heap, nalloc, results, cache, last, pc, area, stor, want>>
+Recv == {"r"}
+State == {"s1", "s2"}
 Gor == {1, 2}
 
 Caller == 1..NBuf
@@ -65,6 +84,7 @@ ASSUME None \notin Vals
 Init == /\ heap \in [1..(NBuf + 1 + MaxAlloc) -> {CHOOSE v \in Vals : TRUE}]
         /\ nalloc = 0 /\ results = {} /\ cache = <<0, None>> /\ last = None
         /\ pc = [g \in Gor |-> None] /\ area = [g \in Gor |-> None]
+        /\ stor = [o \in Recv \cup State |-> 0] /\ want = [o \in State |-> None]
 
 (* what a handed-out result reads NOW *)
 Reads(r) == IF r.ref = 0 THEN r.val ELSE heap[r.ref]
@@ -79,7 +99,7 @@ Encode(x) ==
               /\ heap' = [heap EXCEPT ![Scratch + 1 + nalloc] = x]
               /\ results' = results \cup {[kind |-> "enc", ref |-> Scratch + 1 + nalloc, val |-> x]}
               /\ nalloc' = nalloc + 1
-    /\ UNCHANGED <<cache, last, pc, area>>
+    /\ UNCHANGED <<cache, last, pc, area, stor, want>>
 
 Decode(b) ==
     LET content == heap[b]
@@ -89,20 +109,50 @@ Decode(b) ==
     IN /\ results' = results \cup {[kind |-> "dec", ref |-> IF AliasInput THEN b ELSE 0, val |-> v, want |-> content]}
        /\ cache' = IF CacheByAddress /\ cache[1] # b THEN <<b, content>> ELSE cache
        /\ last' = content
-       /\ UNCHANGED <<heap, nalloc, pc, area>>
+       /\ UNCHANGED <<heap, nalloc, pc, area, stor, want>>
 
-Overwrite(b, v) == /\ heap' = [heap EXCEPT ![b] = v] /\ UNCHANGED <<nalloc, results, cache, last, pc, area>>
+Overwrite(b, v) == /\ heap' = [heap EXCEPT ![b] = v] /\ UNCHANGED <<nalloc, results, cache, last, pc, area, stor, want>>
 
 (* an encoder seen as two steps by two goroutines: assemble, then copy out *)
 AreaOf(g) == IF SharedScratch THEN 1 ELSE g
 CBegin(g, x) == /\ pc[g] = None /\ pc' = [pc EXCEPT ![g] = x] /\ area' = [area EXCEPT ![AreaOf(g)] = x]
-                /\ UNCHANGED <<heap, nalloc, results, cache, last>>
+                /\ UNCHANGED <<heap, nalloc, results, cache, last, stor, want>>
 CEnd(g) == /\ pc[g] # None
            /\ results' = results \cup {[kind |-> "cenc", ref |-> 0, val |-> area[AreaOf(g)], want |-> pc[g]]}
            /\ pc' = [pc EXCEPT ![g] = None]
-           /\ UNCHANGED <<heap, nalloc, cache, last, area>>
+           /\ UNCHANGED <<heap, nalloc, cache, last, area, stor, want>>
+
+(* objects *)
+Fresh == Scratch + 1 + nalloc
+DecodeInto(o, b) ==
+    /\ IF ReuseReceiverStorage /\ stor[o] # 0
+         THEN heap' = [heap EXCEPT ![stor[o]] = heap[b]] /\ UNCHANGED <<stor, nalloc>>
+         ELSE /\ nalloc < MaxAlloc
+              /\ heap' = [heap EXCEPT ![Fresh] = heap[b]] /\ stor' = [stor EXCEPT ![o] = Fresh] /\ nalloc' = nalloc + 1
+    /\ UNCHANGED <<results, cache, last, pc, area, want>>
+Keep(o) == /\ stor[o] # 0
+           /\ results' = results \cup {[kind |-> "kept", ref |-> stor[o], val |-> heap[stor[o]]]}
+           /\ UNCHANGED <<heap, nalloc, cache, last, pc, area, stor, want>>
+NewState(s, v) == /\ stor[s] = 0 /\ s = "s1" /\ nalloc < MaxAlloc
+                  /\ heap' = [heap EXCEPT ![Fresh] = v] /\ stor' = [stor EXCEPT ![s] = Fresh] /\ nalloc' = nalloc + 1
+                  /\ want' = [want EXCEPT ![s] = v]
+                  /\ UNCHANGED <<results, cache, last, pc, area>>
+Update(s, v) == /\ stor[s] # 0
+                /\ heap' = [heap EXCEPT ![stor[s]] = v] /\ want' = [want EXCEPT ![s] = v]      \* in place: the owner may
+                /\ UNCHANGED <<nalloc, results, cache, last, pc, area, stor>>
+Fork(s, t) == /\ stor[s] # 0 /\ stor[t] = 0 /\ s # t
+              /\ IF ForkSharesBuffer
+                   THEN stor' = [stor EXCEPT ![t] = stor[s]] /\ UNCHANGED <<heap, nalloc>>
+                   ELSE /\ nalloc < MaxAlloc
+                        /\ heap' = [heap EXCEPT ![Fresh] = heap[stor[s]]] /\ stor' = [stor EXCEPT ![t] = Fresh] /\ nalloc' = nalloc + 1
+              /\ want' = [want EXCEPT ![t] = want[s]]
+              /\ UNCHANGED <<results, cache, last, pc, area>>
 
 Next == \/ \E x \in Vals : Encode(x)
+        \/ \E o \in Recv, b \in Caller : DecodeInto(o, b)
+        \/ \E o \in Recv : Keep(o)
+        \/ \E s \in State, v \in Vals : NewState(s, v) \/ Update(s, v)
+        \/ \E s, t \in State : Fork(s, t)
         \/ \E b \in Caller : Decode(b)
         \/ \E b \in Caller, v \in Vals : Overwrite(b, v)
         \/ \E g \in Gor, x \in Vals : CBegin(g, x)
@@ -113,5 +163,7 @@ Spec == Init /\ [][Next]_vars
 DecodeIsAFunctionOfContent == \A r \in results : r.kind = "dec" => r.val = r.want
 (* what a goroutine gets is the encoding of ITS argument, whatever the other goroutine is doing *)
 ConcurrentCallsAreIsolated == \A r \in results : r.kind = "cenc" => r.val = r.want
-Inv == ResultsAreValues /\ DecodeIsAFunctionOfContent /\ ConcurrentCallsAreIsolated
+(* every state object reads what ITS lineage wrote, whatever was done to the objects it was copied from or to *)
+LineagesAreIndependent == \A s \in State : stor[s] # 0 => heap[stor[s]] = want[s]
+Inv == ResultsAreValues /\ DecodeIsAFunctionOfContent /\ ConcurrentCallsAreIsolated /\ LineagesAreIndependent
 =============================================================================
